@@ -15,6 +15,13 @@
 (*     timeoutResponse.CopyTo(&ctx.Response) } ; write ctx.Response ;       *)
 (*     reset ctx ; next request.  The old ctx is never released.            *)
 (*                                                                         *)
+(* concurrencyCh (tokens) is one channel per Server, created once and shared *)
+(* by every entry point: Serve on any number of listeners and ServeConn.     *)
+(* A connection ends after any response (Connection: close, HTTP/1.0 without *)
+(* keep-alive, DisableKeepalive, or the client going away): CloseConn gives  *)
+(* its current ctx back to the pool, from where the next connection takes    *)
+(* it (Open); a ctx left to a timed-out handler is never given back.         *)
+(*                                                                         *)
 (* The handler goroutine mutates the Response of the ctx it was given at    *)
 (* any time, also after the timeout.  Contents are abstract values:         *)
 (*   <<"clean",0,0,0>>, <<"H", conn, idx, k>> (k-th mutation by the handler *)
